@@ -69,6 +69,10 @@ THEOREMS = [
     "Nix.C03.getitem_shape_plain",
     "Nix.C03.getitem_shape_link",
     "Nix.C03.h5_lookup_shape",
+    "Nix.C03.h5_get_by_name_shape",
+    "Nix.C03.h5_get_by_id_shape",
+    "Nix.C03.h5_contains_shape",
+    "Nix.C03.backend_atoms_are_h5group",
     "Nix.C03.contains_shape_by_handle",
     "Nix.C03.dispatch_agrees_on_pool",
     "Nix.C03.pool_uuidish",
@@ -113,10 +117,10 @@ MANIFEST = {
                   "DuplicateName, container created into, class created) is regenerated from block.py / section.py / "
                   "source.py / file.py (Generated/CreateShape.lean) and proved to be the model's (create_shape_*). "
                   "The decision trees of Container.__contains__ / __getitem__, LinkContainer.__contains__ / __getitem__ "
-                  "and H5Group.get_by_id_or_name (tests and outcomes in the order of the code, each atom with the meaning "
+                  "and H5Group.get_by_id_or_name / get_by_name / get_by_id / __contains__ (tests and outcomes in the order of the code, each atom with the meaning "
                   "of its own Python expression: Store/ContShape.lean) are regenerated from container.py / h5group.py "
-                  "(Generated/ContShape.lean) and proved to compute contHas / contGet / getByIdOrName for all graphs, "
-                  "containers and keys (contains_shape_*, getitem_shape_*, h5_lookup_shape). Entity objects as keys: an "
+                  "(Generated/ContShape.lean) and proved to compute contHas / contGet / getByIdOrName / getByName / getById "
+                  "for all graphs, containers and keys (contains_shape_*, getitem_shape_*, h5_*_shape). Entity objects as keys: an "
                   "entity object is the node its HDF5 object is, whatever path it was opened through (owning container, "
                   "link list, positions / extents / metadata / link / feature data, a kept handle); membership by entity "
                   "is True exactly when the node is an entry (membership_by_entity / _link / _by_handle), deletion by "
